@@ -41,8 +41,9 @@ func (o *goSliceObject) setLength(value Value) {
 	case wantInt == o.value.Len():
 		// No change needed.
 	case wantInt < o.value.Cap():
-		// Fits in current capacity.
-		o.value.SetLen(wantInt)
+		// Fits in current capacity. Reslice rather than SetLen: a slice that
+		// was handed over by value is not addressable.
+		o.value = o.value.Slice(0, wantInt)
 	default:
 		// Needs expanding.
 		newSlice := reflect.MakeSlice(o.value.Type(), wantInt, wantInt)
